@@ -7,27 +7,26 @@
 (*   Mode = "recover"  for EVERY (e, r, s, recid), in and out of range:       *)
 (*        recovery is sound and complete w.r.t. SEC 1 4.1.4, and every        *)
 (*        malformed class yields "no key" (verification FALSE).               *)
-(* One initial state per case; the lemma is evaluated on its single successor.*)
+(* One initial state per case; the lemma is evaluated with its single successor.*)
 EXTENDS MsgSign
 
 CONSTANTS Mode, ESet, RMax
-VARIABLES a, b, c, ph
-vars == <<a, b, c, ph>>
+VARIABLES a, b, c, ph, holds
+vars == <<a, b, c, ph, holds>>
 
 EAll == 1..(N + 2)
 EFew == {1, 2, N - 1, N, N + 1}
 
-ASSUME CurveOk == Cyclic /\ InvTabOk /\ P % 4 = 3 /\ \A x \in 0..(2 * N + 2) : PointsForXOk(x % P)
+ASSUME CurveOk == Cyclic /\ InvOk /\ P % 4 = 3 /\ PointsForXOk
 
-Init == /\ ph = 0
+Init == /\ ph = 0 /\ holds = TRUE
         /\ IF Mode = "sign" THEN a \in Scalars /\ b \in ESet /\ c \in Scalars
            ELSE a \in ESet /\ b \in 0..RMax /\ c \in 0..(N + 1)
-Next == ph = 0 /\ ph' = 1 /\ UNCHANGED <<a, b, c>>
-Spec == Init /\ [][Next]_vars
 
 \* ------------------------------------------------------------ Mode = "sign": a = d, b = e, c = k
+\* (values are bound through singleton sets: TLC evaluates a bound variable once, a LET definition at every use)
 SignLemmas(d, e, k) ==
-  LET sg == Sign(d, e, k)  Q == PubKey(d) IN
+  \A sg \in {Sign(d, e, k)}, Q \in {PubKey(d)} :
   sg.ok =>
     /\ sg.r \in Scalars /\ sg.s \in Scalars /\ sg.recid \in 0..3
     /\ (N > P => sg.recid < 2)
@@ -36,31 +35,37 @@ SignLemmas(d, e, k) ==
     /\ \A e2 \in ESet : (Recover(e2, sg.r, sg.s, sg.recid) = Q) <=> (e2 % N = e % N) \* for no other digest class
     /\ EcdsaVerify(Q, e, sg.r, sg.s)                                                \* agrees with SEC 1 4.1.4
     /\ \A comp \in BOOLEAN :
-         LET bytes == Compact(HeaderByte(sg.recid, comp), BE32(sg.r), BE32(sg.s))
-             text == B64Encode(bytes) IN
+         \A bytes \in {Compact(HeaderByte(sg.recid, comp), BE32(sg.r), BE32(sg.s))} :
+         \A text \in {B64Encode(bytes)} :
          /\ Len(bytes) = 65 /\ Len(text) = 88 /\ text[88] = "=" /\ text[87] # "="
          /\ B64Decode(text) = [ok |-> TRUE, v |-> bytes]
          /\ bytes[1] = 27 + sg.recid + (IF comp THEN 4 ELSE 0)
-         /\ \A d2 \in Scalars : VerifyText(KeyOf(PubKey(d2)), text, e) <=> (d2 = d)  \* for no other key
+         /\ VerifyText(KeyOf(Q), text, e) /\ VerifyText(AddrOf(Q, comp), text, e) /\ ~VerifyText(AddrOf(Q, ~comp), text, e)
+         /\ \A d2 \in Scalars : VerifyCompact(KeyOf(PubKey(d2)), bytes, e) <=> (d2 = d)  \* for no other key
          /\ \A d2 \in Scalars, c2 \in BOOLEAN :
-               VerifyText(AddrOf(PubKey(d2), c2), text, e) <=> (d2 = d /\ c2 = comp)  \* for no other address
-SignOk == (Mode = "sign" /\ ph = 1) => SignLemmas(a, b, c)
+               VerifyCompact(AddrOf(PubKey(d2), c2), bytes, e) <=> (d2 = d /\ c2 = comp)  \* for no other address
 
 \* ------------------------------------------------------------ Mode = "recover": a = e, b = r, c = s
 RecoverLemmas(e, r, s) ==
   /\ \A j \in 0..3 :
-       LET Q == Recover(e, r, s, j)  cls == RecoverClass(e, r, s, j) IN
+       \A Q \in {Recover(e, r, s, j)}, cls \in {RecoverClass(e, r, s, j)} :
        /\ (cls = "ok") <=> (Q # NoKey)
        /\ Q # NoKey => Q \in Affine /\ EcdsaVerify(Q, e, r, s)                       \* sound
        /\ (r \notin Scalars \/ s \notin Scalars) => Q = NoKey                        \* out of range: no key
        /\ (j >= 2 /\ r + N >= P) => Q = NoKey                                        \* x = r + N is no field element
        /\ \A h \in {26, 27 + j, 31 + j, 35} :
-            LET rc == RecoverCompact(Compact(h, BE32(r), BE32(s)), e) IN
+            \A rc \in {RecoverCompact(Compact(h, BE32(r), BE32(s)), e)} :
             /\ rc.ok <=> (h \in 27..34 /\ Q # NoKey)
             /\ rc.ok => rc.Q = Q /\ rc.comp = (h >= 31)
   /\ \A Q \in Affine :                                                                \* complete
        EcdsaVerify(Q, e, r, s) => \E j \in 0..3 : Recover(e, r, s, j) = Q
   /\ \A j1 \in 0..3, j2 \in 0..3 :                                                    \* ids select different keys
        (j1 # j2 /\ Recover(e, r, s, j1) # NoKey) => Recover(e, r, s, j1) # Recover(e, r, s, j2)
-RecoverOk == (Mode = "recover" /\ ph = 1) => RecoverLemmas(a, b, c)
+
+\* The lemma of a case is evaluated while TLC generates the case's successor (in an action TLC
+\* evaluates every LET definition and operator argument once; in an invariant at every use).
+Next == /\ ph = 0 /\ ph' = 1 /\ UNCHANGED <<a, b, c>>
+        /\ holds' = IF Mode = "sign" THEN SignLemmas(a, b, c) ELSE RecoverLemmas(a, b, c)
+Spec == Init /\ [][Next]_vars
+Holds == holds
 =============================================================================
